@@ -221,9 +221,12 @@ private:
     // (15) - this acquire-load synchronizes-with the release-stores (4, 5, 9, 21, 28)
     auto last_prev = last->prev.load(std::memory_order_acquire);
     auto last_stamp = last->stamp.load(std::memory_order_relaxed);
-    if (last_stamp > stamp && last_prev.get() == tail && tail->next.load(std::memory_order_relaxed) == last) {
+    // The relaxed loads of last->stamp and tail->next are not ordered with respect to each other, so we
+    // may observe the NotInList flag of a block that has just removed itself together with an outdated
+    // tail->next that still references it. In that case last is not the predecessor -> use the best guess.
+    if (last_stamp > stamp && (last_stamp & NotInList) == 0 && last_prev.get() == tail &&
+        tail->next.load(std::memory_order_relaxed) == last) {
       assert((last_stamp & PendingPush) == 0);
-      assert((last_stamp & NotInList) == 0);
       assert(last_stamp >= stamp);
       if (last.get() != head) {
         stamp = last_stamp;
